@@ -748,6 +748,9 @@ func c20Run(c *c20Case) []Failure {
 			c.Retries++
 			continue
 		}
+		if c20Replaying && len(fs) == 0 && attempt < 40 {
+			continue
+		}
 		c.Events, c.QLen, c.FlushMs, c.Note = out.Events, out.QLen, out.FlushMs, out.Note
 		c.NoCoq = len(out.Events) > 2500 || len(out.Events) == 0
 		return fs
@@ -755,6 +758,7 @@ func c20Run(c *c20Case) []Failure {
 }
 
 var c20WorkDir = ""
+var c20Replaying = false // --replay: the schedule of a scenario is not deterministic, repeat it until it fails (at most 40 times)
 
 func c20Gen(tier string, rng *rand.Rand) []c20Case {
 	var cs []c20Case
@@ -909,6 +913,7 @@ func init() {
 	props["c20-worker"] = func(a Args) { c20WorkerMain() }
 	props["C20"] = func(a Args) {
 		c20WorkDir = a.Out
+		c20Replaying = a.Replay != ""
 		runProp(Prop[c20Case]{
 			ID:       "C20",
 			Require:  "From TarsV Require Import Conc.Flush.",
